@@ -155,11 +155,13 @@ def ensure_gen(log=None):
 
 
 def gc_gen(keep):
-    """keep every extraction younger than three hours (another check may be using it) and at most twelve"""
+    """drop an extraction only when it is both beyond the twelve newest and unused for three hours (a running check
+    touches its extraction whenever a unit finishes), or unused for a day"""
     gens = sorted(glob.glob(os.path.join(BUILD, 'gen-*')), key=os.path.getmtime, reverse=True)
     now = time.time()
     for i, g in enumerate(gens):
-        if g != keep and (i >= 12 or now - os.path.getmtime(g) > 3 * 3600):
+        age = now - os.path.getmtime(g)
+        if g != keep and ((i >= 12 and age > 3 * 3600) or age > 24 * 3600):
             shutil.rmtree(g, ignore_errors=True)
 
 
@@ -494,6 +496,10 @@ def run_units(units, progress=None, stop_when=None):
             if STOP.is_set() and r.get('status') != 'done':
                 r = dict(r, status='cancelled', obligations=[])
             out.append(r)
+            try:
+                os.utime(os.path.dirname(u.gen))  # this extraction is in use (see gc_gen)
+            except OSError:
+                pass
             if progress:
                 progress(r)
             if stop_when and not STOP.is_set() and stop_when(u, r):
